@@ -26,6 +26,9 @@ def gen_torrent(rng, tag, tier, version=None, allow_dup_names=True):
     else:
         n = rng.choice([1, 2, 3, 3, 4, 5])
         paths = set()
+        if n >= 2 and rng.random() < 0.3:
+            fn = rng.choice(FNAMES)
+            paths.update({"cd1/" + fn, "cd2/" + fn})
         while len(paths) < n:
             depth = rng.choice([0, 0, 1, 1, 2])
             comps = [rng.choice(DNAMES) for _ in range(depth)] + [rng.choice(FNAMES)]
@@ -34,8 +37,13 @@ def gen_torrent(rng, tag, tier, version=None, allow_dup_names=True):
                 continue
             paths.add(p)
         files = []
+        twin = {}
         for p in sorted(paths):
             size, _ = gen.pick_size(rng, B, pl, allow_empty=True, big=False)
+            fname = p.split("/")[-1]
+            if fname in twin and rng.random() < 0.7:
+                size = twin[fname]          # same name, same size, different bytes elsewhere
+            twin[fname] = size
             files.append((p, Blob.rand(rng.randrange(1, 40), size)))
         if all(len(b) == 0 for _, b in files):
             files[0] = (files[0][0], Blob.rand(5, pl + 1))
